@@ -40,6 +40,7 @@ func init() {
 	}
 	// long AND weak (beyond any "too long to rate" shortcut), long and strong
 	vPasswords = append(vPasswords, strings.Repeat("a", 257), strings.Repeat("a", 300), strings.Repeat("1", 400), strings.Repeat("Xk9#mQ2$vL7&pR4-", 17))
+	vPasswords = append(vPasswords, "Alice.Wonderland", "ALICE-2024-x", "aLiCe", "Root.Toor.Root", "ROOT", "Whawty-Whawty", "Newuser-Newuser9", "NEWUSER")
 	vPasswords = append(vPasswords, "  password  ", "PASSWORD", "password\n", " G7$kq!v9Zp#2mL", "G7$KQ!V9ZP#2ML", "\tletmein", "monkey\x00G7$kq!v9Zp#2mL")
 }
 
@@ -160,6 +161,8 @@ func suiteV17(c *vctx) {
 			nw = 300
 		}
 		cli := 0
+		type forcedWrite struct{ path, user, pw string }
+		var forced []forcedWrite
 		for k := 0; k < nw; k++ {
 			pw := vPasswords[r.Intn(len(vPasswords))]
 			if r.Intn(4) == 0 {
@@ -172,6 +175,24 @@ func suiteV17(c *vctx) {
 			}
 			if strings.HasSuffix(path, "init") {
 				user = "root"
+			}
+			// the SAME password for two different users one after the other, one of whose names it contains
+			// in another letter case: the verdict is a function of (password, user), whoever asked before
+			if len(forced) == 0 && r.Intn(6) == 0 {
+				fam := []string{"Alice.Wonderland", "ALICE-2024-x", "aLiCe", "Alice", "alice", "G7$kq-ALICE-zP"}
+				fpw := fam[r.Intn(len(fam))]
+				other := fmt.Sprintf("m%d", k)
+				w1 := forcedWrite{[]string{"iface-add", "http-add"}[r.Intn(2)], other, fpw}
+				w2 := forcedWrite{[]string{"iface-update", "http-update-admin", "http-update-self"}[r.Intn(3)], "alice", fpw}
+				if r.Bool() {
+					forced = []forcedWrite{w1, w2}
+				} else {
+					forced = []forcedWrite{w2, w1}
+				}
+			}
+			if len(forced) > 0 {
+				path, user, pw = forced[0].path, forced[0].user, forced[0].pw
+				forced = forced[1:]
 			}
 			z := zxcvbn.PasswordStrength(pw, []string{user, "whawty"})
 			before := dirDigest(a.dirPath)
@@ -194,7 +215,7 @@ func suiteV17(c *vctx) {
 				storeWould = false // the directory is not empty: init fails in the store whatever the policy says
 				stored = a.iface.Init(user, pw) == nil
 			case "cli-add", "cli-update", "cli-init":
-				if bin == "" || cli >= 6 || strings.HasPrefix(pw, "-") {
+				if bin == "" || cli >= 6 || strings.HasPrefix(pw, "-") || strings.ContainsRune(pw, 0) { // (argv cannot carry NUL)
 					continue
 				}
 				cli++
